@@ -405,6 +405,24 @@ class is_flag_active_visitor<Flag, flag_and>""")]),
             // event has to be put into the queue
             m_events_queue.m_events_queue.push_back(queued_event<EventType>{this, evt});
 """)]),
+ dict(name='revert-d32-puml-keyword-first-occurrence', prop='C14', rule='C14.puml', edits=[('include/boost/msm/front/puml/puml.hpp', """            constexpr auto flag_pos = find_line_keyword(stt(), "flag");""", """            constexpr auto flag_pos = stt().find("flag");""")]),
+ dict(name='puml-guard-and-before-or', prop='C14', rule='C14.puml', edits=[('include/boost/msm/front/puml/puml.hpp', """            if constexpr (or_pos != std::string::npos)
+            {
+                return boost::msm::front::Or_<
+                    decltype(boost::msm::front::puml::detail::parse_guard_simple(
+                        [=]() {return boost::msm::front::puml::detail::cleanup_token(guard_func().substr(0, or_pos)); })),
+                    decltype(boost::msm::front::puml::detail::parse_guard_simple(
+                        [=]() {return boost::msm::front::puml::detail::cleanup_token(guard_func().substr(or_pos + 2)); })) > {};
+            }
+            else if constexpr (and_pos != std::string::npos)""", """            if constexpr (or_pos != std::string::npos && (and_pos == std::string::npos || or_pos < and_pos))
+            {
+                return boost::msm::front::Or_<
+                    decltype(boost::msm::front::puml::detail::parse_guard_simple(
+                        [=]() {return boost::msm::front::puml::detail::cleanup_token(guard_func().substr(0, or_pos)); })),
+                    decltype(boost::msm::front::puml::detail::parse_guard_simple(
+                        [=]() {return boost::msm::front::puml::detail::cleanup_token(guard_func().substr(or_pos + 2)); })) > {};
+            }
+            else if constexpr (and_pos != std::string::npos)""")]),
  dict(name='revert-d20-puml-terminate-suffix', prop='C14', rule='C14.puml', edits=[('include/boost/msm/front/puml/puml.hpp', """cleanup_token(stt().substr(endl_before_pos + 1, arrow_pos - endl_before_pos - 1)) == state_name())""", """cleanup_token(stt().substr(state_pos, arrow_pos - state_pos)) == state_name())""")]),
  dict(name='flagfold-back11-early-break', prop='C17', rule='C17.pure', edits=[(B11, """            res = typename BinaryOp::type() (res,(*flags_entries[ m_states[i] ])(*this));""", """            res = typename BinaryOp::type() (res,(*flags_entries[ m_states[i] ])(*this));
             if (res) break;""")]),
